@@ -478,11 +478,15 @@ func (c *counter) Advance() bool { c.n--; return c.n >= 0 }
 // the method value is created
 type holder struct{ counter }
 
-func OptPromotedNil(a, b int) «Iter[int]» {
-	var x *holder
-	if a > 1 {
-		x = &holder{counter{a}}
+func mkHolder(n, min int) (h *holder) {
+	if n > min {
+		h = &holder{counter{n}}
 	}
+	return h
+}
+
+func OptPromotedNil(a, b int) «Iter[int]» {
+	x := mkHolder(a, 1) // assigned exactly once
 	if b > 0 {
 		vrt.E(%[5]d)
 		«Yield»(-1)
@@ -494,10 +498,7 @@ func OptPromotedNil(a, b int) «Iter[int]» {
 }
 
 func OptPromotedNilClosure(a, b int) «Iter[int]» {
-	var x *holder
-	if a > 2 {
-		x = &holder{counter{a}}
-	}
+	x := mkHolder(a, 2)
 	adv := func() bool { return x.Advance() } // created before the yield, called after it
 	«Yield»(b)
 	vrt.E(%[6]d)
